@@ -279,8 +279,9 @@ def run(chk, repo, tier):
                         okt = even_case(nf.strip_apps(e.data['value'], ('cast', 'float'))) == want
                         det = f'summand {fmt(e.data["value"])[:260]}'
                         seen_term = True
-                        other = sorted({a[1] for a in nf.value_atoms(e.data['value']) if a[0] == 'app' and a[1] not in
-                                        ('factorial', 'pow', 'abs', 'floor', 'cast', 'float', 'int', 'math.factorial')})
+                        other = sorted({a[1] for a in nf.value_atoms(e.data['value']) if a[0] == 'app' and
+                                        str(a[1]).split('.')[-1] in ('comb', 'binom', 'perm', 'gamma', 'gammaln', 'ifexp', 'prod',
+                                                                     'where', 'poch', 'factorial2')})
                         if not okt and other:
                             # written with other functions (binomials, a sign selected by parity, ...): not compared
                             okt, det = None, f'undecided: the summand uses {", ".join(other)[:80]}: {fmt(e.data["value"])[:160]}'
